@@ -189,10 +189,6 @@ def kc(high, low, close, p, mult, x=None):
     return {"lower": _lin(1.0, mid, -mult, rng), "band": band, "upper": _lin(1.0, mid, mult, rng)}
 
 
-def _extreme(x, lo, hi, fn):
-    return fn(x[lo : hi + 1])
-
-
 def donchian(high, low, p):
     """highest high / lowest low of the last p candles (current included), mid = their mean"""
     n = len(high)
@@ -841,15 +837,6 @@ def judge(readings, variants):
 
 def const_tol(t):
     return lambda i: t
-
-
-def sd_float_slack(x, sd_ref, i):
-    """float cancellation slack of a running-variance standard deviation: the variance carries an
-    absolute float error d ~ 64*eps*max|x|^2*(i+1); |sqrt(v+d)-sqrt(v)| <= min(sqrt d, d/sqrt v)"""
-    m = max((abs(v) for v in x[: i + 1] if v is not None), default=0.0)
-    d = 64 * 2.3e-16 * m * m * (i + 1)
-    s = sd_ref[i] if i < len(sd_ref) and defined(sd_ref[i]) else 0.0
-    return min(math.sqrt(d), d / s) if s > 0 else math.sqrt(d)
 
 
 def run_real(cls, candles, kw, mode="batch"):
